@@ -1,6 +1,7 @@
 import Frp.Model.LockDisc
 import Frp.Model.Crash
 import Frp.Gen.LockFacts
+import Frp.Gen.NilFacts
 import Frp.Gen.MsgSchema
 /-
   C16 — No input or interleaving crashes or wedges frps or frpc (partial).
@@ -12,6 +13,13 @@ import Frp.Gen.MsgSchema
    3. channels: every close site is guarded or a pinned single-owner site, every send on a channel that
       is closed somewhere is recover-wrapped or a pinned same-goroutine site; dispatcher totality;
    4. (exploration, engine `crash`) message storms against a real frps / frpc in a sacrificial child.
+  Added (strengthening round 2):
+   3d. the readers behind work / visitor connections: every use of a pointer-typed message field
+       (REGENERATED Gen/NilFacts.lean) is nil-guarded or nil-tolerant; no frame on a udp work connection
+       can kill frps or touch another connection (all histories);
+   3e. RegisterWorkConn against the session teardown: with the deferred recover (regenerated fact) no
+       interleaving of offers with the worker's closing steps kills frps; without it one does, whatever
+       is tested up front.
 
   Three places where the code as it is in /repo violates the property are kept visible, each behind a
   switch that the integrator flips when the corresponding fix commit lands:
@@ -23,6 +31,7 @@ namespace Frp
 namespace C16
 open LockDisc Crash
 open Frp.Gen.LockFacts
+open Frp.Gen.NilFacts
 
 /-! ## 1. Lock discipline of the shared tables -/
 
@@ -486,6 +495,276 @@ theorem every_type_handled_or_ignored (s : Sess) (hs : s.alive = true) :
     rfl
   · exact ⟨hs, Or.inl rfl⟩
 
+/-! ## 3d. Readers of work / visitor connections: pointer-typed message fields -/
+
+/-- methods that are written for nil receivers, read from the Go source:
+    net/udpsock.go `func (a *UDPAddr) String() string { if a == nil { return "<nil>" } … }` -/
+def nilSafeMethods : List (String × String) := [("*net.UDPAddr", "String")]
+
+/-- callees that test the address before using it, read from the Go source:
+    net/udpsock_posix.go `func (c *UDPConn) writeTo(b, addr) { … if addr == nil { return 0, errMissingAddress } … }`
+    (WriteToUDP passes its argument straight to writeTo) -/
+def nilTolerantCallees : List String := ["udpConn.WriteToUDP"]
+
+def PtrUsesOk : Prop := ∀ u ∈ ptrUses, u.okWith nilSafeMethods nilTolerantCallees = true
+instance : Decidable PtrUsesOk := by unfold PtrUsesOk; infer_instance
+
+/-- every use of a pointer-typed message field anywhere in client/ pkg/ server/ is under a nil guard,
+    or is a nil-safe method / nil-tolerant callee / a copy / a comparison with nil — over the facts
+    regenerated from the tree on this run -/
+theorem ptr_uses_guarded : ∀ u ∈ ptrUses, u.okWith nilSafeMethods nilTolerantCallees = true := by
+  decide +kernel
+
+/-- the extractor is not blind: the pointer fields are the two addresses of UDPPacket and the known
+    uses in both forwarders are there with the shape the code has -/
+theorem ptr_sites_present :
+    msgPtrFields = [("UDPPacket", "LocalAddr", "*net.UDPAddr"), ("UDPPacket", "RemoteAddr", "*net.UDPAddr")] ∧
+    7 ≤ ptrUses.length ∧
+    [ ("ForwardUserConn", "udpMsg.RemoteAddr", PtrUseKind.arg "udpConn.WriteToUDP" 1),
+      ("Forwarder", "udpMsg.RemoteAddr", .method "String"),
+      ("Forwarder", "udpMsg.RemoteAddr", .argFollowed "writerFn" 0),
+      ("Forwarder>writerFn", "raddr <- writerFn", .method "String"),
+      ("Forwarder>writerFn", "raddr <- writerFn", .argFollowed "NewUDPPacket" 2),
+      ("Forwarder>writerFn>NewUDPPacket", "raddr <- NewUDPPacket", .store),
+      ("SUDPProxy.InWorkConn", "m.RemoteAddr", .method "String"),
+      ("SUDPProxy.InWorkConn", "m.LocalAddr", .method "String")
+    ].all (fun k => (ptrUses.map (fun u => (u.fn, u.expr, u.kind))).contains k) = true := by
+  decide +kernel
+
+/-- an accepted use never kills, whatever the packet carries -/
+theorem ok_use_never_kills {ns : List (String × String)} {tol : List String} {u : PtrUse}
+    (h : u.okWith ns tol = true) (p : UdpPkt) : useOutcome ns tol u p = .alive := by
+  unfold useOutcome
+  unfold PtrUse.okWith at h
+  cases hg : u.guarded <;> cases hd : u.derefs ns tol <;> simp_all
+
+/-- … and a load through the field outside a guard does, as soon as the peer leaves the field out
+    (this is what `udpMsg.RemoteAddr.Port` in a reader amounts to) -/
+theorem unguarded_deref_kills {ns : List (String × String)} {tol : List String} {u : PtrUse} {p : UdpPkt}
+    (hd : u.derefs ns tol = true) (hg : u.guarded = false) (hn : p.isNil u.field = true) :
+    useOutcome ns tol u p = .processDies := by
+  unfold useOutcome
+  simp [hd, hg, hn]
+
+theorem consume_total {ns : List (String × String)} {tol : List String} {uses : List PtrUse}
+    (h : ∀ u ∈ uses, u.okWith ns tol = true) (p : UdpPkt) : consume ns tol uses p = .alive := by
+  unfold consume
+  have : uses.any (fun u => useOutcome ns tol u p == .processDies) = false := by
+    rw [List.any_eq_false]
+    intro u hu
+    rw [ok_use_never_kills (h u hu) p]
+    decide
+  rw [this]
+  rfl
+
+/-- for EVERY packet (absent / null / zero / out-of-range addresses, undecodable content): consuming it
+    cannot kill the process — all listed uses taken as reached -/
+theorem forward_total (p : UdpPkt) : consume nilSafeMethods nilTolerantCallees ptrUses p = .alive :=
+  consume_total ptr_uses_guarded p
+
+/-- ForwardUserConn as written: a packet without address is never written to the socket and never fatal -/
+theorem forwardUserOne_nil (p : UdpPkt) (h : p.raddr = none) : forwardUserOne p ≠ .written := by
+  unfold forwardUserOne
+  rw [h]
+  cases p.contentOk <;> simp
+
+/-- the udp work-connection reader: a malformed frame closes THIS connection and asks for a new one;
+    Ping and every other registered type are dropped; only UDPPacket is queued -/
+theorem udp_reader_step (w : UdpWork) (h : w.open_ = true) (f : WFrame) :
+    (f = .bad → (udpReaderStep w f).open_ = false ∧ (udpReaderStep w f).queued = w.queued ∧
+                (udpReaderStep w f).renew = w.renew + 1) ∧
+    (f = .ping → udpReaderStep w f = w) ∧
+    (∀ t, f = .other t → udpReaderStep w f = w) ∧
+    (∀ p, f = .udp p → (udpReaderStep w f).open_ = true ∧ (udpReaderStep w f).queued = w.queued ++ [p]) := by
+  refine ⟨?_, ?_, ?_, ?_⟩
+  · intro hf; subst hf; simp [udpReaderStep, h]
+  · intro hf; subst hf; simp [udpReaderStep, h]
+  · intro t hf; subst hf; simp [udpReaderStep, h]
+  · intro p hf; subst hf; simp [udpReaderStep, h]
+
+theorem udp_reader_closed_stays (w : UdpWork) (h : w.open_ = false) (f : WFrame) : udpReaderStep w f = w := by
+  unfold udpReaderStep
+  simp [h]
+
+theorem deliverW_confined : ∀ (ws : List UdpWork) (j k : Nat) (f : WFrame), j ≠ k →
+    (deliverW ws j f)[k]? = ws[k]?
+  | [], _, _, _, _ => rfl
+  | _ :: _, 0, 0, _, h => absurd rfl h
+  | _ :: _, 0, _ + 1, _, _ => rfl
+  | _ :: _, _ + 1, 0, _, _ => rfl
+  | _ :: rest, j + 1, k + 1, f, h => by
+    simp only [deliverW, List.getElem?_cons_succ]
+    exact deliverW_confined rest j k f (by omega)
+
+section srv
+variable {hs : List String} {ns : List (String × String)} {tol : List String} {uses : List PtrUse}
+
+theorem srvStep_alive (hu : ∀ p, consume ns tol uses p = .alive) (s : Srv) (e : Ev) (h : s.alive = true) :
+    (srvStep hs ns tol uses s e).alive = true := by
+  cases e with
+  | ctl i f => simp [srvStep, h]
+  | bytes k => simp [srvStep, h]
+  | work j f =>
+    cases f with
+    | udp p => simp [srvStep, h, hu p]
+    | ping => simp [srvStep, h]
+    | other t => simp [srvStep, h]
+    | bad => simp [srvStep, h]
+
+/-- all histories of frames on control connections, udp work connections and relayed connections:
+    the process stays alive, provided every listed use is accepted -/
+theorem srvRun_alive (hu : ∀ p, consume ns tol uses p = .alive) :
+    ∀ (evs : List Ev) (s : Srv), s.alive = true → (srvRun hs ns tol uses s evs).alive = true := by
+  intro evs
+  induction evs with
+  | nil => intro s h; exact h
+  | cons e rest ih =>
+    intro s h
+    exact ih (srvStep hs ns tol uses s e) (srvStep_alive hu s e h)
+
+/-- frames on work / relayed connections never touch a control session … -/
+theorem srvStep_work_keeps_ctls (s : Srv) (e : Ev) (he : ∀ i f, e ≠ .ctl i f) :
+    (srvStep hs ns tol uses s e).ctls = s.ctls := by
+  unfold srvStep
+  split
+  · rfl
+  · cases e with
+    | ctl i f => exact absurd rfl (he i f)
+    | bytes k => rfl
+    | work j f =>
+      cases f with
+      | udp p => simp only; split <;> rfl
+      | ping => rfl
+      | other t => rfl
+      | bad => rfl
+
+/-- … and frames on control connections never touch a work connection's reader -/
+theorem srvStep_ctl_keeps_works (s : Srv) (i : Nat) (f : Frame) :
+    (srvStep hs ns tol uses s (.ctl i f)).works = s.works := by
+  unfold srvStep
+  split <;> rfl
+
+theorem srvRun_work_keeps_ctls :
+    ∀ (evs : List Ev) (s : Srv), (∀ e ∈ evs, ∀ i f, e ≠ .ctl i f) → (srvRun hs ns tol uses s evs).ctls = s.ctls := by
+  intro evs
+  induction evs with
+  | nil => intro s _; rfl
+  | cons e rest ih =>
+    intro s h
+    have h1 := h e (List.mem_cons_self ..)
+    have h2 : ∀ e' ∈ rest, ∀ i f, e' ≠ .ctl i f := fun e' he => h e' (List.mem_cons_of_mem _ he)
+    show (srvRun hs ns tol uses (srvStep hs ns tol uses s e) rest).ctls = s.ctls
+    rw [ih _ h2, srvStep_work_keeps_ctls s e h1]
+
+/-- a frame on udp work connection j leaves every other work connection as it was -/
+theorem srvStep_work_confined (s : Srv) (j k : Nat) (f : WFrame) (h : j ≠ k) :
+    (srvStep hs ns tol uses s (.work j f)).works[k]? = s.works[k]? := by
+  unfold srvStep
+  split
+  · rfl
+  · cases f with
+    | udp p => simp only; split <;> exact deliverW_confined s.works j k _ h
+    | ping => exact deliverW_confined s.works j k _ h
+    | other t => exact deliverW_confined s.works j k _ h
+    | bad => exact deliverW_confined s.works j k _ h
+
+end srv
+
+/-- the statement for the tree as it is: no history of frames — on control sessions, on udp work
+    connections (Ping, UDPPacket with any combination of absent addresses, other types, malformed frames),
+    on pooled / relayed connections — kills frps -/
+theorem frames_never_kill (evs : List Ev) (s : Srv) (h : s.alive = true) :
+    (srvRun (serverHandlers.map Prod.fst) nilSafeMethods nilTolerantCallees ptrUses s evs).alive = true :=
+  srvRun_alive forward_total evs s h
+
+/-- what a single unguarded load would do (the model is not vacuous): with `udpMsg.RemoteAddr.Port` among
+    the consumer's uses, ONE address-less packet on an open udp work connection ends the process -/
+theorem unguarded_load_witness :
+    (srvRun [] nilSafeMethods nilTolerantCallees
+      [⟨"pkg/proto/udp/udp.go", "ForwardUserConn", 46, "udpMsg.RemoteAddr", "UDPPacket.RemoteAddr", "*net.UDPAddr", .fieldSel "Port", false⟩]
+      { works := [{}] } [.work 0 (.udp ⟨true, none, none⟩)]).alive = false := by
+  decide
+
+/-! ## 3e. RegisterWorkConn against the session's teardown -/
+
+theorem register_recover_never_panics (v : RegVariant) (h : v.recover_ = true) (c : Ctl) :
+    (registerWorkConn v c).2 ≠ .panics := by
+  unfold registerWorkConn
+  repeat' split
+  all_goals simp_all
+
+theorem tstep_alive (v : RegVariant) (h : v.recover_ = true) (c : Ctl) (l : TLabel) :
+    (tstep v (c, .alive) l).2 = .alive := by
+  cases l with
+  | offer =>
+    simp only [tstep]
+    have := register_recover_never_panics v h c
+    simp [this]
+  | _ => rfl
+
+/-- ALL interleavings (every order of the worker's closing steps and any number of offers at any
+    point — a superset of the real schedules): with the deferred recover frps survives -/
+theorem trun_from_alive (v : RegVariant) (h : v.recover_ = true) :
+    ∀ (ls : List TLabel) (c : Ctl), (ls.foldl (tstep v) (c, .alive)).2 = .alive := by
+  intro ls
+  induction ls with
+  | nil => intro c; rfl
+  | cons l rest ih =>
+    intro c
+    simp only [List.foldl_cons]
+    have h1 := tstep_alive v h c l
+    have h2 : tstep v (c, .alive) l = ((tstep v (c, .alive) l).1, .alive) :=
+      Prod.ext rfl h1
+    rw [h2]
+    exact ih _
+
+/-- ALL interleavings (every order of the worker's closing steps and any number of offers at any
+    point — a superset of the real schedules): with the deferred recover frps survives -/
+theorem teardown_offer_safe (v : RegVariant) (h : v.recover_ = true) (ls : List TLabel) (c : Ctl) :
+    (trun v c ls).2 = .alive :=
+  trun_from_alive v h ls c
+
+/-- without it, an offer handled after `close(workConnCh)` and before `close(doneCh)` kills frps —
+    whether or not doneCh is tested up front -/
+theorem teardown_unrecovered_dies (doneCheck : Bool) (n : Nat) (c : Ctl) (hc : c.inTable = true) (hd : c.doneOpen = true) :
+    (trun ⟨false, doneCheck⟩ c ([.closeCh, .offer] ++ List.replicate n .offer)).2 = .processDies := by
+  have h2 : (trun ⟨false, doneCheck⟩ c [.closeCh, .offer]).2 = .processDies := by
+    simp [trun, tstep, registerWorkConn, hc, hd]
+  have hstay : ∀ (m : Nat) (st : Ctl × Outcome), st.2 = .processDies →
+      ((List.replicate m TLabel.offer).foldl (tstep ⟨false, doneCheck⟩) st).2 = .processDies := by
+    intro m
+    induction m with
+    | zero => intro st h; exact h
+    | succ k ih =>
+      intro st h
+      simp only [List.replicate_succ, List.foldl_cons]
+      apply ih
+      simp only [tstep, h]
+  unfold trun at *
+  rw [List.foldl_append]
+  exact hstay n _ h2
+
+theorem teardown_unrecovered_witness :
+    (trun ⟨false, true⟩ {} (tearSchedule "drained" 1)).2 = .processDies ∧
+    (trun ⟨false, true⟩ {} (tearSchedule "beforeDone" 1)).2 = .processDies ∧
+    (trun ⟨false, true⟩ {} (tearSchedule "dispDone" 3)).2 = .alive ∧
+    (trun ⟨false, true⟩ {} (tearSchedule "beforeDel" 3)).2 = .alive ∧
+    (trun ⟨false, false⟩ {} (tearSchedule "beforeDel" 1)).2 = .processDies := by
+  decide
+
+/-- how RegisterWorkConn IS written, from the regenerated channel facts -/
+def regRecover : Bool :=
+  (sends.map (fun s => (s.site, s.guard))).contains
+    (("server/control.go", "Control.RegisterWorkConn", "ctl.workConnCh"), SendGuard.deferRecover)
+
+theorem register_recover_fact : regRecover = true := by
+  decide +kernel
+
+/-- the tree as it is: no interleaving of work-connection offers with a session's teardown kills frps -/
+theorem teardown_safe_as_is (doneCheck : Bool) (ls : List TLabel) (c : Ctl) :
+    (trun ⟨regRecover, doneCheck⟩ c ls).2 = .alive :=
+  teardown_offer_safe ⟨regRecover, doneCheck⟩ register_recover_fact ls c
+
 /-! ## 3c. discoverConn (client side) -/
 
 theorem discover_safe_partial {sent reqs : Nat} (h : sent ≤ reqs + discoverBuf) :
@@ -555,6 +834,16 @@ example : proxyUseOutcome true 5 (-1) = .alive := by decide
 example : (run ["Ping"] [{}, {}] [(0, .bad), (1, .known "Ping"), (0, .known "Ping"), (1, .known "Pong")])
     = [{ alive := false }, { handled := ["Ping"] }] := by decide
 example : firstMsg (.known "Ping") = .closed := by decide
+example : ptrUses.length ≠ 0 := by decide +kernel
+example : forwardUserOne ⟨true, none, none⟩ = .writeErr ∧ forwardUserOne ⟨false, none, none⟩ = .skipped ∧
+    forwardUserOne ⟨true, none, some ⟨4, 53⟩⟩ = .written ∧ forwardUserOne ⟨true, none, some ⟨0, 0⟩⟩ = .writeErr := by decide
+example : (srvRun ["Ping"] nilSafeMethods nilTolerantCallees ptrUses { ctls := [{}], works := [{}, {}] }
+    [.work 0 (.udp ⟨true, none, none⟩), .work 0 .bad, .work 0 (.udp ⟨true, none, none⟩), .work 1 .ping, .ctl 0 (.known "Ping"),
+     .bytes .relay]) =
+    { ctls := [{ handled := ["Ping"] }], works := [{ open_ := false, queued := [⟨true, none, none⟩], renew := 1 }, {}] } := by
+  decide +kernel
+example : (trun ⟨true, false⟩ {} (tearSchedule "drained" 2)) = ({ chOpen := false, doneOpen := false, inTable := false }, .alive) := by
+  decide
 example : accesses.length ≠ 0 := by decide +kernel
 
 end C16
